@@ -43,7 +43,7 @@ Ideal(rq, w) ==
 
 PlanOut == IF "VERIF_PLAN_OUT" \in DOMAIN IOEnv THEN IOEnv.VERIF_PLAN_OUT ELSE ""
 PlanRec(r) == [host |-> r.host, method |-> r.method, path |-> r.path,
-               layout |-> LayoutOf(r.host, r.path).is]
+               layout |-> LayoutOf(r.host, r.path).is, link |-> HasLink(r.path)]
 ExportPlan ==
     PlanOut = "" \/ LET s == SetToSeq(Requests) IN
                      ndJsonSerialize(PlanOut, [i \in 1..Len(s) |-> PlanRec(s[i])])
